@@ -644,6 +644,26 @@ func buildCorpus() []tplSpec {
 	}
 	g.add("search:searchMeta/facet", mk(std, aggCmd(`{"$searchMeta":{"index":"default","facet":{"operator":{"range":{"path":"%G","gte":{"$date":"<<D:@>>"},"lt":{"$date":"<<D:@>>"}}},"facets":{"%G":{"type":"string","path":"%G","numBuckets":5},"%G":{"type":"number","path":"%G","boundaries":[%N,%N,%N],"default":"other"},"%G":{"type":"date","path":"%G","boundaries":[{"$date":"<<D:@>>"},{"$date":"<<D:@>>"}]}}}}}`), "str"), "search", "quick")
 	g.add("search:vectorSearch", mk(std, aggCmd(`{"$vectorSearch":{"index":"vidx","path":"%G","queryVector":[%N,%N,%N],"numCandidates":150,"limit":10,"filter":{"$and":[{"%G":{"$gte":%V}},{"%G":{"$in":[%S,%S]}}]}}},{"$project":{"%G":1,"score":{"$meta":"vectorSearchScore"}}}`), "str"), "search", "quick")
+	// 5. wide arrays (the other templates keep arrays at <= 2 elements): mostly numbers, with
+	// string literals at the second and the second-to-last position; widths around powers of two
+	for _, n := range []int{5, 17, 33} {
+		var el []string
+		for i := 0; i < n; i++ {
+			if i == 1 || i == n-2 {
+				el = append(el, "%S")
+			} else {
+				el = append(el, "%N")
+			}
+		}
+		arr := "[" + strings.Join(el, ",") + "]"
+		tags := []string{"wide"}
+		if n == 17 {
+			tags = append(tags, "quick")
+		}
+		g.add(fmt.Sprintf("wide:find.filter/in/%d", n), mk(std, `{"find":"<<COLL:coll>>","filter":{"%G":{"$in":`+arr+`}},"limit":10,"$db":"<<DB:db>>"}`, "str"), append([]string{"filter"}, tags...)...)
+		g.add(fmt.Sprintf("wide:insert.documents/arr/%d", n), mk(std, `{"insert":"<<COLL:coll>>","documents":[{"%G":`+arr+`}],"ordered":true,"$db":"<<DB:db>>"}`, "str"), append([]string{"doc"}, tags...)...)
+		g.add(fmt.Sprintf("wide:aggregate.expr/in/%d", n), mk(envelopes[2], aggCmd(`{"$match":{"$expr":{"$in":["$%G",`+arr+`]}}}`), "str"), append([]string{"pipeline"}, tags...)...)
+	}
 	sort.SliceStable(g.out, func(i, j int) bool { return g.out[i].Name < g.out[j].Name })
 	return g.out
 }
